@@ -229,20 +229,32 @@ fn beh_script(b: char) -> &'static str {
         'o' => "echo 'needle first line'; head -c 1000000 /dev/zero | tr '\\0' 'y' | fold -w 60",
         'O' => "echo 'a progress note' >&2; echo 'needle first line'; head -c 1000000 /dev/zero | tr '\\0' 'y' | fold -w 60",
         'z' => "echo 'needle before nul'; head -c 300000 /dev/zero | tr '\\0' 'y' | fold -w 60; printf 'nul \\000 here\\n'; head -c 1000000 /dev/zero | tr '\\0' 'y' | fold -w 60; exit 3",
+        // more shapes of commands: output only after a pause, stderr only, stdin never read (closed at once)
+        'W' => "echo 'needle first line'; sleep 0.3; echo 'needle late line'",
+        'E' => "echo 'only a remark, no output' >&2",
+        'N' => "exec 0<&-; printf 'needle without reading stdin for %s\\n' \"$(basename \"$1\")\"",
+        // stdout closed long before the exit (failing / succeeding), other signals, killed half way, a grandchild that
+        // keeps the pipe open and writes after the command itself has exited
+        'L' => "cat; exec 1>&-; sleep 0.2; exit 3",
+        'l' => "cat; exec 1>&-; sleep 0.2",
+        'T' => "cat; kill -15 $$",
+        'P' => "head -n 1; kill -9 $$",
+        'G' => "cat; (sleep 0.2; echo 'needle from a grandchild') &",
         _ => "cat",
     }
 }
 
-const BEHS: &[char] = &['e', 'e', 'e', 't', 't', 'x', 'x', 's', 's', 'S', 'I', 'b', 'b', 'B', 'B', 'a', 'a', 'A', 'A', 'd', 'd', 'D', 'D', 'k', 'k', 'h', 'H', 'o', 'O', 'z'];
+const BEHS: &[char] = &['e', 'e', 'e', 't', 't', 'x', 'x', 's', 's', 'S', 'I', 'b', 'b', 'B', 'B', 'a', 'a', 'A', 'A', 'd', 'd', 'D', 'D', 'k', 'k', 'h', 'H', 'o', 'O', 'z', 'W', 'E', 'N', 'L', 'l', 'T', 'P', 'G'];
 
 fn gen_pre(rng: &mut Rng) -> String {
     let n = rng.range(1, 5);
     let behs: String = (0..n).map(|_| *rng.pick(BEHS)).collect();
     format!(
-        "pre seed={} j={} flag={} behs={}",
+        "pre seed={} j={} flag={} u={} behs={}",
         rng.below(1 << 30),
         if rng.chance(1, 2) { 1 } else { 4 },
         rng.pick(&["none", "none", "m1", "l", "q"]),
+        rng.chance(1, 3) as u8,
         behs
     )
 }
@@ -287,6 +299,10 @@ struct FileSpec {
     stderr_empty: bool,
     /// rg certainly stops reading long before the end of `out` under an early-stop flag
     huge_after_match: bool,
+    /// first line of what the command writes to stderr when left alone
+    stderr_line: String,
+    /// rg may stop reading this file's command early (early-stop flag and a match, or binary detection)
+    stops_early: bool,
 }
 
 /// The model's decision for one file: `consume` (read script, stop) then `search_preprocessor`, for every
@@ -338,7 +354,7 @@ fn verdict_spec(fs: &FileSpec, flag: &str, has_match: bool, binary_stop: bool) -
 #[allow(clippy::too_many_arguments)]
 fn judge(
     case: &str, what: &str, files: &[FileSpec], verdicts: &[Verdict], mverdicts: &[Verdict], flag: &str, out: &RunOut, reference: &RunOut,
-    class_of: &dyn Fn(&str) -> &'static str, check_exit: bool, rep: &mut Report,
+    class_of: &dyn Fn(&str) -> &'static str, check_exit: bool, ml: bool, rep: &mut Report,
 ) {
     let se = out.stderr_str();
     let mut problems: Vec<(String, &'static str)> = vec![];
@@ -352,8 +368,19 @@ fn judge(
         let named = se.lines().any(|l| l.contains(&format!("t/{}:", fs.name)) || l.contains(&format!("t/{} ", fs.name)) || l.ends_with(&format!("t/{}", fs.name)));
         let named = named || se.contains(&format!("t/{}", fs.name));
         if named { any_err = true; }
-        // the known class: the command is fine, rg stopped reading, the command had written to stderr
-        let class = if *v == Verdict::Ok && *mv != Verdict::Ok && fs.success && !fs.stderr_empty { CLASS_STDERR_EARLY } else { class_of(&fs.name) };
+        // class stopped-early-command-with-stderr-output-is-reported-as-failed — mechanism test, all in this very
+        // case: the command succeeds when left alone, it writes to stderr, rg may stop reading it early (early-stop
+        // flag with a match, or binary detection), the model's close() can then fail (its verdict is not Ok), and the
+        // diagnostic rg printed for this file carries the command's own stderr line (close() took the "stderr is
+        // not empty" branch)
+        // (its beginning: a command that is killed early may not get to write all of it)
+        let head: String = fs.stderr_line.trim().chars().take(40).collect();
+        let diag_has_stderr = !head.is_empty() && se.contains(&head);
+        let mechanism = *v == Verdict::Ok && *mv != Verdict::Ok && fs.success && !fs.stderr_empty && fs.stops_early && named && diag_has_stderr;
+        let class = if mechanism { CLASS_STDERR_EARLY } else { class_of(&fs.name) };
+        if *v == Verdict::Ok && named {
+            rep.branch(&format!("class:{}:{}", CLASS_STDERR_EARLY, if mechanism { "attributed" } else { "mechanism-absent" }));
+        }
         match v {
             Verdict::Err if !named && flag != "q" => problems.push((format!("{}: the command failed but no error names the file", fs.name), class)),
             Verdict::Ok if named => problems.push((format!("{}: an error is reported although the command succeeds when left alone (it was only stopped early): {}", fs.name,
@@ -367,7 +394,9 @@ fn judge(
         }
         // results: exactly those of searching the command's stdout — also for a file whose command failed
         // (what it wrote before failing was searched; both drivers print it since 1ed0364)
-        if flag != "q" {
+        // (multi-line: the whole output is read before anything is searched, so a failing command — its error
+        // arrives with the end of its output — yields no results at all: left open by the property)
+        if flag != "q" && !(ml && named) {
             let got = lines_of(&out.stdout, &fs.name);
             let want = lines_of(&reference.stdout, &fs.name);
             // a failing command whose output does not end in a line terminator: the error arrives before the
@@ -451,24 +480,35 @@ fn run_pre(case: &str, ctx: &mut Ctx, drv: &mut Driver, rep: &mut Report) {
             success: o.code == Some(0),
             stderr_empty: o.stderr.is_empty(),
             huge_after_match: matches!(b, 'h' | 'H' | 'o' | 'O' | 'z'),
+            stderr_line: String::from_utf8_lossy(&o.stderr).lines().next().unwrap_or("").to_string(),
+            stops_early: false,
             out: o.stdout,
         });
         rep.branch(&format!("pre:beh:{}", b));
     }
     let base = ["--color", "never", "--no-config", "--no-heading", "--with-filename", "--no-line-number", "--no-mmap"];
     let mut cmd = Command::new(&ctx.rg);
-    cmd.current_dir(&dir).args(base).arg(format!("-j{}", j)).args(flag_args(flag)).arg("--pre").arg(&script).arg("needle").arg("t");
+    // u=1: multi-line search (-U with a pattern that may match the line terminator): every file's command output is
+    // read to its end into the searcher's (reused) buffer before it is searched, so nothing stops early
+    let u = f.get("u").map_or(false, |v| v == "1");
+    let (uargs, pattern): (Vec<&str>, &str) = if u { (vec!["-U"], "needle[^\\n]*\\n?") } else { (vec![], "needle") };
+    if u { rep.branch("pre:multi-line"); }
+    cmd.current_dir(&dir).args(base).arg(format!("-j{}", j)).args(flag_args(flag)).args(&uargs).arg("--pre").arg(&script).arg(pattern).arg("t");
     let out = run_cmd(&mut cmd, None);
     let mut rcmd = Command::new(&ctx.rg);
-    rcmd.current_dir(&mirror).args(base).arg(format!("-j{}", j)).args(flag_args(flag)).arg("needle").arg("t");
+    rcmd.current_dir(&mirror).args(base).arg(format!("-j{}", j)).args(flag_args(flag)).args(&uargs).arg(pattern).arg("t");
     let reference = run_cmd(&mut rcmd, None);
     let mut verdicts: Vec<Verdict> = vec![];
     let mut mverdicts: Vec<Verdict> = vec![];
-    for fs in &files {
+    let flag_v: &str = if u { "none" } else { flag }; // for the early-stop reasoning only
+    for fs in files.iter_mut() {
         let has_match = contains(&fs.out, b"needle");
         let binary_stop = fs.out.contains(&0);
-        mverdicts.push(verdict_model(fs, flag, has_match, binary_stop, drv));
-        verdicts.push(verdict_spec(fs, flag, has_match, binary_stop));
+        let binary_stop = binary_stop && !u;
+        fs.stops_early = (flag_v != "none" && has_match) || binary_stop;
+        let fs = &*fs;
+        mverdicts.push(verdict_model(fs, flag_v, has_match, binary_stop, drv));
+        verdicts.push(verdict_spec(fs, flag_v, has_match, binary_stop));
     }
     for (v, mv) in verdicts.iter().zip(&mverdicts) {
         rep.branch(&format!("pre:verdict:spec-{:?}:model-{:?}", v, mv));
@@ -477,7 +517,51 @@ fn run_pre(case: &str, ctx: &mut Ctx, drv: &mut Driver, rep: &mut Report) {
     if verdicts.iter().any(|v| *v == Verdict::Err) && verdicts.iter().any(|v| *v == Verdict::Ok) {
         rep.nontrivial(case);
     }
-    judge(case, "rg --pre", &files, &verdicts, &mverdicts, flag, &out, &reference, &|_| "", true, rep);
+    judge(case, "rg --pre", &files, &verdicts, &mverdicts, flag, &out, &reference, &|_| "", true, u, rep);
+    remove_tree(&dir);
+}
+
+/// stdin is not a named file: neither --pre nor -z applies to it (it is "not selected / not recognised": searched directly)
+fn run_stdin(case: &str, ctx: &mut Ctx, rep: &mut Report) {
+    let f = fields(case);
+    let (Some(seed), Some(z), Some(pre), Some(fmt)) = (f.get("seed").and_then(|v| v.parse::<u64>().ok()), f.get("z"), f.get("pre"), f.get("fmt")) else {
+        rep.notes.push(format!("unparsable case: {}", case));
+        return;
+    };
+    rep.eval();
+    ctx.counter += 1;
+    let dir = fresh_dir(&ctx.scratch, &format!("i{}", ctx.counter));
+    let text: String = file_lines(seed, 0).join("\n") + "\n";
+    std::fs::write(dir.join("plain.txt"), &text).unwrap();
+    let bytes: Vec<u8> = if fmt == "gz" {
+        let mut c = Command::new("gzip");
+        c.current_dir(&dir).args(["-c", "plain.txt"]);
+        run_cmd(&mut c, None).stdout
+    } else {
+        text.clone().into_bytes()
+    };
+    let script = dir.join("pre.sh");
+    write_script(&script, "echo 'needle made up by the preprocessor'");
+    let mk = |with: bool| {
+        let mut c = Command::new(&ctx.rg);
+        c.current_dir(&dir).args(["--color", "never", "--no-config", "-a", "-c"]);
+        if with && z == "1" { c.arg("-z"); }
+        if with && pre == "1" { c.arg("--pre").arg(&script); }
+        c.args(["needle", "-"]);
+        c
+    };
+    let reference = run_cmd(&mut mk(false), Some(&bytes));
+    let out = run_cmd(&mut mk(true), Some(&bytes));
+    rep.branch(&format!("stdin:z{}:pre{}:{}", z, pre, fmt));
+    rep.nontrivial(case);
+    if out.stdout != reference.stdout || out.exit() != reference.exit() || !out.stderr.is_empty() {
+        rep.violation(Violation {
+            kind: "impl_vs_spec".into(), class: "".into(),
+            tie: "stdin is searched directly: --pre / -z apply to named files only".into(),
+            case: case.to_string(),
+            detail: format!("with the flags: {} (exit {}, stderr {}); without: {} (exit {})", show(&out.stdout), out.exit(), show(&out.stderr[..out.stderr.len().min(120)]), show(&reference.stdout), reference.exit()),
+        });
+    }
     remove_tree(&dir);
 }
 
@@ -532,12 +616,12 @@ fn run_premissing(case: &str, ctx: &mut Ctx, drv: &mut Driver, rep: &mut Report)
 
 // ------------------------------------------------------------------ -z
 
-const ZKINDS: &[char] = &['g', 'b', 'x', 'G', 'B', 'X', 'c', 'p', 'n', 'u', 'Z', 'e', 'g', 'x', 'a', 'q', 'w', 'm'];
+const ZKINDS: &[char] = &['g', 'b', 'x', 'G', 'B', 'X', 'c', 'p', 'n', 'u', 'Z', 'e', 'g', 'x', 'a', 'q', 'w', 'm', 'U', 'd', 'C', 'K', 'r', 'E'];
 
 fn gen_z(rng: &mut Rng) -> String {
     let n = rng.range(1, 5);
     let kinds: String = (0..n).map(|_| *rng.pick(ZKINDS)).collect();
-    format!("z seed={} j={} flag={} kinds={}", rng.below(1 << 30), if rng.chance(1, 2) { 1 } else { 4 }, rng.pick(&["none", "none", "m1", "l"]), kinds)
+    format!("z seed={} j={} flag={} u={} kinds={}", rng.below(1 << 30), if rng.chance(1, 2) { 1 } else { 4 }, rng.pick(&["none", "none", "m1", "l"]), rng.chance(1, 3) as u8, kinds)
 }
 
 fn compress(tool: &str, data: &[u8]) -> Vec<u8> {
@@ -553,6 +637,8 @@ fn run_z(case: &str, ctx: &mut Ctx, drv: &mut Driver, rep: &mut Report) {
         return;
     };
     let kinds: Vec<char> = kinds.chars().collect();
+    let u = f.get("u").map_or(false, |v| v == "1");
+    let flag_v: &str = if u { "none" } else { flag };
     if kinds.contains(&'Z') && ctx.have_zstd {
         rep.notes.push("zstd is installed: the missing-decompressor kind is skipped".into());
         return;
@@ -596,12 +682,23 @@ fn run_z(case: &str, ctx: &mut Ctx, drv: &mut Driver, rep: &mut Report) {
             }
             'p' => (format!("f{}.txt", i), text.clone(), None),
             'n' => (format!("f{}.gz.txt", i), text.clone(), None),
+            // suffix in upper case: the globs are case sensitive, the file is searched as it is
+            'U' => (format!("f{}.GZ", i), compress("gzip", &text), None),
+            // double suffix
+            'd' => (format!("f{}.tar.gz", i), compress("gzip", &text), Some("gzip")),
+            // several compressed members / streams in one file
+            'C' => { let mut c = compress("gzip", &text); c.extend(compress("gzip", b"needle in the second member\n")); (format!("f{}.gz", i), c, Some("gzip")) }
+            'K' => { let mut c = compress("xz", &text); c.extend(compress("xz", b"needle in the second stream\n")); (format!("f{}.xz", i), c, Some("xz")) }
+            // trailing garbage after the compressed data
+            'r' => { let mut c = compress("gzip", &text); c.extend(b"trailing garbage"); (format!("f{}.gz", i), c, Some("gzip")) }
+            // empty files with the other suffixes
+            'E' => (format!("f{}.{}", i, if i % 2 == 0 { "xz" } else { "bz2" }), vec![], Some(if i % 2 == 0 { "xz" } else { "bzip2" })),
             'u' => (format!("f{}.bin", i), compress("gzip", &text), None),
             _ => (format!("f{}.zst", i), text.clone(), None), // 'Z': recognised, but zstd is not installed
         };
         std::fs::write(t.join(&name), &bytes).unwrap();
         rep.branch(&format!("z:kind:{}", k));
-        let fs = match tool {
+        let mut fs = match tool {
             Some(tool) => {
                 // the command the model's rule table gives for this name (program and arguments)
                 let line = drv.ask(&format!("c18.command {}", hex(name.as_bytes())));
@@ -613,9 +710,9 @@ fn run_z(case: &str, ctx: &mut Ctx, drv: &mut Driver, rep: &mut Report) {
                 let mut c = Command::new(toks[0]);
                 c.args(&toks[1..]).arg(format!("t/{}", name)).current_dir(&dir);
                 let o = run_cmd(&mut c, None);
-                FileSpec { name: name.clone(), success: o.code == Some(0), stderr_empty: o.stderr.is_empty(), huge_after_match: false, out: o.stdout }
+                FileSpec { name: name.clone(), success: o.code == Some(0), stderr_empty: o.stderr.is_empty(), huge_after_match: false, stderr_line: String::from_utf8_lossy(&o.stderr).lines().next().unwrap_or("").to_string(), stops_early: false, out: o.stdout }
             }
-            None => FileSpec { name: name.clone(), success: true, stderr_empty: true, huge_after_match: false, out: bytes.clone() },
+            None => FileSpec { name: name.clone(), success: true, stderr_empty: true, huge_after_match: false, stderr_line: String::new(), stops_early: false, out: bytes.clone() },
         };
         std::fs::write(mirror.join("t").join(&name), &fs.out).unwrap();
         let v = if *k == 'Z' {
@@ -629,8 +726,10 @@ fn run_z(case: &str, ctx: &mut Ctx, drv: &mut Driver, rep: &mut Report) {
             Verdict::Err
         } else if tool.is_some() {
             let has_match = contains(&fs.out, b"needle");
-            mverdicts.push(verdict_model(&fs, flag, has_match, fs.out.contains(&0), drv));
-            verdict_spec(&fs, flag, has_match, fs.out.contains(&0))
+            let bstop = fs.out.contains(&0) && !u;
+            fs.stops_early = (flag_v != "none" && has_match) || bstop;
+            mverdicts.push(verdict_model(&fs, flag_v, has_match, bstop, drv));
+            verdict_spec(&fs, flag_v, has_match, bstop)
         } else {
             mverdicts.push(Verdict::Ok);
             Verdict::Ok
@@ -640,25 +739,39 @@ fn run_z(case: &str, ctx: &mut Ctx, drv: &mut Driver, rep: &mut Report) {
     }
     let base = ["--color", "never", "--no-config", "--no-heading", "--with-filename", "--no-line-number", "--no-mmap"];
     let mut cmd = Command::new(&ctx.rg);
-    cmd.current_dir(&dir).args(base).arg(format!("-j{}", j)).args(flag_args(flag)).arg("-z").arg("needle").arg("t");
+    let (uargs, pattern): (Vec<&str>, &str) = if u { (vec!["-U"], "needle[^\\n]*\\n?") } else { (vec![], "needle") };
+    if u { rep.branch("z:multi-line"); }
+    cmd.current_dir(&dir).args(base).arg(format!("-j{}", j)).args(flag_args(flag)).args(&uargs).arg("-z").arg(pattern).arg("t");
     let out = run_cmd(&mut cmd, None);
     let mut rcmd = Command::new(&ctx.rg);
-    rcmd.current_dir(&mirror).args(base).arg(format!("-j{}", j)).args(flag_args(flag)).arg("needle").arg("t");
+    rcmd.current_dir(&mirror).args(base).arg(format!("-j{}", j)).args(flag_args(flag)).args(&uargs).arg(pattern).arg("t");
     let reference = run_cmd(&mut rcmd, None);
     for v in &verdicts { rep.branch(&format!("z:verdict:{:?}", v)); }
     if verdicts.iter().any(|v| *v == Verdict::Err) && verdicts.iter().any(|v| *v == Verdict::Ok) { rep.nontrivial(case); }
     // a decompressor that cannot be started: the model (and the code) fall back to the raw file
     let zf = zfallback.clone();
-    let class_of = move |name: &str| -> &'static str { if zf.contains(name) { CLASS_ZFALLBACK } else { "" } };
+    let class_of = move |name: &str| -> &'static str { let _ = (&zf, name); "" };
     if !zfallback.is_empty() {
         // with a fallback file in the run the exit status / diagnostics are judged per file only
         let se = out.stderr_str();
         for fs in files.iter().filter(|fs| zfallback.contains(&fs.name)) {
             let named = se.contains(&format!("t/{}", fs.name));
             let raw_results = lines_of(&out.stdout, &fs.name) == lines_of(&reference.stdout, &fs.name);
+            // class decompressor-missing-falls-back-to-raw — mechanism test: the rule table names a program for this
+            // file, that program is not installed here, no error names the file, and its results are exactly those
+            // of searching the raw file
+            let cmdline = drv.ask(&format!("c18.command {}", hex(fs.name.as_bytes())));
+            let prog = cmdline.split(' ').next().unwrap_or("-").to_string();
+            let prog_missing = prog != "-" && {
+                let mut c = Command::new("sh");
+                c.args(["-c", &format!("command -v {}", prog)]);
+                run_cmd(&mut c, None).code != Some(0)
+            };
+            let mechanism = prog_missing && !named && raw_results;
             if !named {
+                rep.branch(&format!("class:{}:{}", CLASS_ZFALLBACK, if mechanism { "attributed" } else { "mechanism-absent" }));
                 rep.violation(Violation {
-                    kind: "impl_vs_spec".into(), class: CLASS_ZFALLBACK.into(),
+                    kind: "impl_vs_spec".into(), class: (if mechanism { CLASS_ZFALLBACK } else { "" }).into(),
                     tie: "rg -z: a decompression command that cannot be started".into(), case: case.to_string(),
                     detail: format!("{}: zstd is not installed, yet no error is reported; the raw file is searched instead (results equal raw search: {})", fs.name, raw_results),
                 });
@@ -672,13 +785,13 @@ fn run_z(case: &str, ctx: &mut Ctx, drv: &mut Driver, rep: &mut Report) {
             }
         }
         let keep: Vec<usize> = (0..files.len()).filter(|i| !zfallback.contains(&files[*i].name)).collect();
-        let files2: Vec<FileSpec> = keep.iter().map(|i| FileSpec { name: files[*i].name.clone(), out: files[*i].out.clone(), success: files[*i].success, stderr_empty: files[*i].stderr_empty, huge_after_match: false }).collect();
+        let files2: Vec<FileSpec> = keep.iter().map(|i| FileSpec { name: files[*i].name.clone(), out: files[*i].out.clone(), success: files[*i].success, stderr_empty: files[*i].stderr_empty, huge_after_match: false, stderr_line: files[*i].stderr_line.clone(), stops_early: files[*i].stops_early }).collect();
         let verdicts2: Vec<Verdict> = keep.iter().map(|i| verdicts[*i]).collect();
         let mverdicts2: Vec<Verdict> = keep.iter().map(|i| mverdicts[*i]).collect();
         // the whole-run exit status is not compared here (the fallback file contributes matches of its own)
-        judge(case, "rg -z", &files2, &verdicts2, &mverdicts2, flag, &out, &reference, &class_of, false, rep);
+        judge(case, "rg -z", &files2, &verdicts2, &mverdicts2, flag, &out, &reference, &class_of, false, u, rep);
     } else {
-        judge(case, "rg -z", &files, &verdicts, &mverdicts, flag, &out, &reference, &class_of, true, rep);
+        judge(case, "rg -z", &files, &verdicts, &mverdicts, flag, &out, &reference, &class_of, true, u, rep);
     }
     remove_tree(&dir);
 }
@@ -829,6 +942,7 @@ fn run_case(case: &str, ctx: &mut Ctx, drv: &mut Driver, rep: &mut Report) {
         Some("lib") => run_lib(case, drv, rep),
         Some("pre") => run_pre(case, ctx, drv, rep),
         Some("premissing") => run_premissing(case, ctx, drv, rep),
+        Some("stdin") => run_stdin(case, ctx, rep),
         Some("z") => run_z(case, ctx, drv, rep),
         Some("sel") => run_sel(case, ctx, drv, rep),
         Some("pipes") => run_pipes(case, drv, rep),
@@ -844,8 +958,8 @@ fn main() {
         "lib: real sh children (0-300000 bytes of stdout, 0-4 MiB of stderr before/after, exit 0/1/3/255 or SIGKILL) read through \
          grep_cli::CommandReader to EOF or closed after 0-3 reads, sync and async stderr, read buffers 1-65536; pre: rg --pre with a \
          generated script whose behaviour per file is echo/transform/replace/small+4MiB+interleaved stderr/exit 3 before, during, \
-         after output (silent or not)/SIGKILL/huge output after the first match/NUL byte, flags none,-m1,-l,-q, -j1/-j4, plus a \
-         missing/non-executable/directory command; z: rg -z on gzip/bzip2/xz valid, truncated, corrupted, empty, unrecognised names, the alias extensions .tgz .tbz2 .txz .lzma, \
+         after output (silent or not)/SIGKILL/output after a pause/stderr only/stdin never read/huge output after the first match/NUL byte, flags none,-m1,-l,-q, each also as a multi-line search (-U, pattern that may match the terminator: several files through the same worker's reused buffer), -j1/-j4, plus a \
+         missing/non-executable/directory command; z: rg -z on gzip/bzip2/xz valid, truncated, corrupted, empty (gz/xz/bz2), several members per file, trailing garbage, double suffix .tar.gz, upper-case suffix .GZ, unrecognised names, the alias extensions .tgz .tbz2 .txz .lzma, \
          .zst without zstd (the reference command comes from the model's rule table); sel: 12 --pre-glob sets x --pre x -z on 5 files; pipes: random schedules of the two-pipe model. \
          Non-trivial: a failing and a succeeding command in the same run (pre, z), a failing child with output (lib), every sel case. \
          Excluded from comparison: the error verdict when rg may or may not have seen EOF \
@@ -876,6 +990,9 @@ fn main() {
             };
             if i < 9 { rep.sample(case.clone()); }
             run_case(&case, &mut ctx, &mut drv, &mut rep);
+        }
+        for k in 0..8u64 {
+            run_case(&format!("stdin seed={} z={} pre={} fmt={}", rng.below(1 << 30), k & 1, (k >> 1) & 1, if k & 4 == 0 { "gz" } else { "txt" }), &mut ctx, &mut drv, &mut rep);
         }
         for kind in ["absent", "directory", "notexec"] {
             for j in [1, 4] {
